@@ -286,9 +286,9 @@ func c16Run(c *core.Ctx, idx int) {
 				// the new element is the decoded, initialised Stack or Condition
 				ne, _ := recv.Index(before)
 				okNew := false
-				if ds, isS := stackage.ConvertStack(ne); isS && ds.IsInit() {
+				if ds, isS := AsStack(ne); isS && ds.IsInit() {
 					okNew = true
-				} else if dc, isC := stackage.ConvertCondition(ne); isC && dc.IsInit() {
+				} else if dc, isC := AsCond(ne); isC && dc.IsInit() {
 					okNew = true
 				}
 				if !okNew {
@@ -355,8 +355,8 @@ func c16Entries(recv stackage.Stack, want []any) string {
 	for i, w := range want {
 		g := sn.Slots[i]
 		if _, nested := w.([]any); nested {
-			_, isS := stackage.ConvertStack(g)
-			_, isC := stackage.ConvertCondition(g)
+			_, isS := AsStack(g)
+			_, isC := AsCond(g)
 			_, raw := g.([]any)
 			if !isS && !isC && !raw {
 				return fmt.Sprintf("position %d holds %s where a nested row was given", i, Show(g))
